@@ -72,6 +72,15 @@ func genLimitCase(t *rapid.T) LimitCase {
 			l = 0
 		}
 		m.Data = genPayloadOfLen(t, "wp", l)
+		if c.R.Compress && m.Compressed && rapid.Bool().Draw(t, "inflates_past_limit") {
+			// the limit counts payload bytes on the wire: a compressed message
+			// may inflate to much more than L
+			big := l*rapid.IntRange(2, 40).Draw(t, "expand") + rapid.IntRange(1, 50).Draw(t, "expand_add")
+			if big > 30000 {
+				big = 30000
+			}
+			m.Data = Payload{Len: big, Kind: rapid.SampledFrom([]string{"zeros", "ff", "pat4", "text"}).Draw(t, "expand_kind"), Seed: 7}
+		}
 		// re-fit fragment sizes to the new length
 		for j := range m.Frags {
 			if m.Frags[j] > l {
@@ -140,7 +149,7 @@ func checkC06(c LimitCase, o *Obs) error {
 	s := c.S
 	s.Msgs = append([]SMsg(nil), c.S.Msgs...)
 	for i := range s.Msgs {
-		if s.Msgs[i].Data.Len > int(L) {
+		if s.Msgs[i].Data.Len > int(L) && !(s.Msgs[i].Compressed && c.R.Compress) {
 			s.Msgs[i].Data = Payload{Len: int(L), Kind: "counter"}
 		}
 	}
@@ -148,6 +157,9 @@ func checkC06(c LimitCase, o *Obs) error {
 	for i, m := range model.Msgs {
 		if int64(m.WireLen) > L {
 			s.Msgs[i].Compressed = false
+			if s.Msgs[i].Data.Len > int(L) {
+				s.Msgs[i].Data = Payload{Len: int(L), Kind: "counter"}
+			}
 		}
 	}
 	model = BuildStream(s, masked, c.R.Compress)
@@ -385,6 +397,7 @@ func classifyLimit(c LimitCase, model *Model, o *Obs, overflow, topbit bool) {
 	nt := false
 	for i, m := range model.Msgs {
 		st := c.Reads[i%len(c.Reads)]
+		o.ClassIf(m.Compressed && len(m.Payload) > L, "compressed_within_limit_inflates_past_L")
 		edge := m.WireLen == L || m.WireLen == L-1
 		o.ClassIf(edge, "within_at_L_or_L-1")
 		if edge && predAbandoned {
